@@ -34,6 +34,13 @@ Definition GET_L : bytes := [42; 50; 13; 10; 36; 51; 13; 10; 103; 101; 116; 13; 
 Definition SET_U : bytes := [42; 51; 13; 10; 36; 51; 13; 10; 83; 69; 84; 13; 10]%N.     (* "*3\r\n$3\r\nSET\r\n" *)
 Definition SET_L : bytes := [42; 51; 13; 10; 36; 51; 13; 10; 115; 101; 116; 13; 10]%N.  (* "*3\r\n$3\r\nset\r\n" *)
 Definition HEADER_LEN : nat := 13.
+(* the command names inside these headers *)
+Definition NAME_GET_U : bytes := [71; 69; 84]%N.
+Definition NAME_GET_L : bytes := [103; 101; 116]%N.
+Definition NAME_SET_U : bytes := [83; 69; 84]%N.
+Definition NAME_SET_L : bytes := [115; 101; 116]%N.
+Definition is_get_name (nm : bytes) : Prop := nm = NAME_GET_U \/ nm = NAME_GET_L.
+Definition is_set_name (nm : bytes) : Prop := nm = NAME_SET_U \/ nm = NAME_SET_L.
 
 (* buf.starts_with(p) *)
 Definition starts_with (p b : bytes) : bool := bytes_eqb (firstn (length p) b) p.
@@ -450,6 +457,36 @@ Section Handler.
       end
     | _ => k
     end.
+
+  (* ---------------------------------------------------------------- what is assumed of the backend *)
+  (* the batch pipelines answer like one fast GET / SET after the other *)
+  Fixpoint seq_gets (s : St) (ks : list bytes) : St * list resp :=
+    match ks with
+    | [] => (s, [])
+    | k :: t => let '(s1, r) := fast_get s k in let '(s2, l) := seq_gets s1 t in (s2, r :: l)
+    end.
+  Fixpoint seq_sets (s : St) (ps : list (bytes * bytes)) : St * list resp :=
+    match ps with
+    | [] => (s, [])
+    | (k, v) :: t => let '(s1, r) := fast_set s k v in let '(s2, l) := seq_sets s1 t in (s2, r :: l)
+    end.
+
+  (* The command layer reads a two-element GET frame / three-element SET frame with a UTF-8 key
+     as the plain commands Get / Set, and the fast entry points of the backend (pooled_fast_get,
+     pooled_fast_set, fast_batch_*_pipeline) answer like state.execute on those commands.  The
+     mini backend satisfies this by construction (Proofs/ConnProofs.v: mini_backend_ok); for the
+     real backend it is what the correspondence check and the direct oracles test. *)
+  Definition backend_ok : Prop :=
+    (forall nm k, is_get_name nm -> utf8_ok k = true ->
+                  decode_cmd (RArr [RBulk nm; RBulk k]) = inl (cmd_get k)) /\
+    (forall nm k v, is_set_name nm -> utf8_ok k = true ->
+                    decode_cmd (RArr [RBulk nm; RBulk k; RBulk v]) = inl (cmd_set k v)) /\
+    (forall k, kind (cmd_get k) = KPlain) /\
+    (forall k v, kind (cmd_set k v) = KPlain) /\
+    (forall s k, fast_get s k = exec s (cmd_get k)) /\
+    (forall s k v, fast_set s k v = exec s (cmd_set k v)) /\
+    (forall s ks, batch_get s ks = seq_gets s ks) /\
+    (forall s ps, batch_set s ps = seq_sets s ps).
 
   (* a stream of well-formed frames (possibly with an unfinished frame at the end) *)
   Definition wf_stream (stream : bytes) : Prop :=
